@@ -129,7 +129,7 @@ inductive Val where
     Fuel bounds the nesting depth of slice kinds. -/
 def decodeValue : Nat → Kind → Bytes → Bytes → Val → Bytes → Res Val
   | 0, _, _, _, _, _ => .error .fuel
-  | fuel+1, k, delim, strip, old, value =>
+  | fuel+1, k, delim, strip, _old, value =>
     match k with
     | .str => .ok (.str value)
     | .int =>
@@ -152,10 +152,11 @@ def decodeValue : Nat → Kind → Bytes → Bytes → Val → Bytes → Res Val
     | .unsupported _ => .error .err
     | .slice elem =>
       let delim' := if delim.isEmpty then [32] else delim
+      -- field.Set(reflect.Zero(...)): the list is what the field says, whatever `old` held
       let v := Str.trimSet strip value
-      if v.isEmpty then .ok old else
+      if v.isEmpty then .ok .zero else
       let els := if delim' = [32] then Str.fields v else Str.split delim' v
-      let start : List Val := match old with | .list vs => vs | _ => []
+      let start : List Val := []
       (els.foldlM (fun acc el =>
         (decodeValue fuel elem delim strip .zero (Str.trimSet strip el)).map (fun v => acc ++ [v])) start).map .list
 
